@@ -770,6 +770,11 @@ class Interp:
                 self.exec_block(st, frame, ext.body)
             except Return as r:
                 return VList(frame.yields) if is_gen else r.value
+            except Continue:
+                # only in an extracted loop body (`func::loop#k`): `continue` ends this iteration
+                if getattr(ext.node, "source_node", None) is None:
+                    raise
+                return None
             return VList(frame.yields) if is_gen else None
         finally:
             st.depth -= 1
